@@ -94,7 +94,8 @@ def valsOf (i : Nat) (us : List Use) : List Word := (us.filter (·.arg = i)).map
 
 /-- **The destination of an argument as a function of its own uses** (`vals`: the values of the uses
     of this argument, in command-line order; `init`: the destination's value before the evaluation).
-    Not used: unchanged.  Flag: the value to set.  Int / string: the last value given.  List: the
+    Not used: unchanged.  Flag: the value to set.  Int: the last value given, converted.  String: the last
+    value given, formatted by the argument's formatter (`d.fmt`; none: as typed).  List: the
     initial content followed by all elements of all uses in order.  LevelCounter: increments and
     assignments applied in order. -/
 def denote (d : ArgDef) (init : DVal) (vals : List Word) : DVal :=
@@ -104,7 +105,7 @@ def denote (d : ArgDef) (init : DVal) (vals : List Word) : DVal :=
     match d.kind with
     | .flag => .flag d.flagValue
     | .int => .int (castOr0 last)
-    | .str => .str last
+    | .str => .str (d.fmt.apply last)
     | .vecInt => .vec (vecOf init ++ vals.flatMap (fun v => castAll (splitSep d.sep v)))
     | .level => .level (vals.foldl levelStep (levelOf init))
 
